@@ -4,10 +4,12 @@ package main
 
 import (
 	"crypto/aes"
+	"encoding/binary"
 	"fmt"
 	"io"
 	"log"
 	"os"
+	"time"
 
 	"github.com/brocaar/lorawan"
 	"github.com/jacobsa/crypto/cmac"
@@ -15,6 +17,7 @@ import (
 	"verifharness/internal/cases"
 	"verifharness/internal/cq"
 	"verifharness/internal/framefmt"
+	"verifharness/internal/micforge"
 	"verifharness/internal/noise"
 )
 
@@ -39,6 +42,8 @@ func obool(ok bool, err error) string {
 
 // setUp returns the MIC SetUplinkDataMIC stores (on a copy of p).
 func setUp(p lorawan.PHYPayload, v lorawan.MACVersion, conf uint32, dr, ch uint8, fk, sk lorawan.AES128Key) (s string, mic lorawan.MIC, ok bool) {
+	cases.Begin("SetUplinkDataMIC:"+framefmt.Phy(p, 0), nil)
+	defer cases.End()
 	defer func() {
 		if r := recover(); r != nil {
 			s, ok = cq.Panic, false
@@ -51,6 +56,8 @@ func setUp(p lorawan.PHYPayload, v lorawan.MACVersion, conf uint32, dr, ch uint8
 }
 
 func setDown(p lorawan.PHYPayload, v lorawan.MACVersion, conf uint32, sk lorawan.AES128Key) (s string, mic lorawan.MIC, ok bool) {
+	cases.Begin("SetDownlinkDataMIC:"+framefmt.Phy(p, 0), nil)
+	defer cases.End()
 	defer func() {
 		if r := recover(); r != nil {
 			s, ok = cq.Panic, false
@@ -63,6 +70,8 @@ func setDown(p lorawan.PHYPayload, v lorawan.MACVersion, conf uint32, sk lorawan
 }
 
 func valUp(p lorawan.PHYPayload, v lorawan.MACVersion, conf uint32, dr, ch uint8, fk, sk lorawan.AES128Key) (s string) {
+	cases.Begin("ValidateUplinkDataMIC:"+framefmt.Phy(p, 0), nil)
+	defer cases.End()
 	defer func() {
 		if r := recover(); r != nil {
 			s = cq.Panic
@@ -72,6 +81,8 @@ func valUp(p lorawan.PHYPayload, v lorawan.MACVersion, conf uint32, dr, ch uint8
 }
 
 func valUpF(p lorawan.PHYPayload, fk lorawan.AES128Key) (s string) {
+	cases.Begin("ValidateUplinkDataMICF:"+framefmt.Phy(p, 0), nil)
+	defer cases.End()
 	defer func() {
 		if r := recover(); r != nil {
 			s = cq.Panic
@@ -81,6 +92,8 @@ func valUpF(p lorawan.PHYPayload, fk lorawan.AES128Key) (s string) {
 }
 
 func valDown(p lorawan.PHYPayload, v lorawan.MACVersion, conf uint32, sk lorawan.AES128Key) (s string) {
+	cases.Begin("ValidateDownlinkDataMIC:"+framefmt.Phy(p, 0), nil)
+	defer cases.End()
 	defer func() {
 		if r := recover(); r != nil {
 			s = cq.Panic
@@ -143,6 +156,9 @@ func upCaseM(s *cases.Set, r *cq.RNG, p lorawan.PHYPayload, v lorawan.MACVersion
 		noise.Step(nr)
 	}
 	oset, mic, ok := setUp(p, v, conf, dr, ch, fk, sk)
+	if ok {
+		lastMIC = mic
+	}
 	if fixed != nil {
 		p.MIC = *fixed
 	} else if ok {
@@ -176,6 +192,9 @@ func downCaseM(s *cases.Set, r *cq.RNG, p lorawan.PHYPayload, v lorawan.MACVersi
 		noise.Step(nr)
 	}
 	oset, mic, ok := setDown(p, v, conf, sk)
+	if ok {
+		lastMIC = mic
+	}
 	if fixed != nil {
 		p.MIC = *fixed
 	} else if ok {
@@ -204,6 +223,114 @@ func downCase(s *cases.Set, r *cq.RNG, p lorawan.PHYPayload, v lorawan.MACVersio
 }
 
 var lastKey = "(none)"
+var lastMIC lorawan.MIC // the MIC Set computed in the previous compared case
+var forged, forgedHit int
+
+// forge builds a data frame whose CORRECT MIC under the given parameters is `want` (see internal/micforge): the
+// message B0 | MHDR | FHDR | FPort | FRMPayload is made a multiple of 16 bytes long with its last block inside the
+// FRMPayload, and that block is solved from the wanted tag. 1.0 and downlink: one CMAC, direct. 1.1 uplink:
+// MIC = cmacS[0:2] | cmacF[0:2] over messages differing in the first block only: cmacS is fixed by inversion, the
+// 14 free tag bytes are varied until cmacF[0:2] fits (about 2^16 trials).
+func forge(r *cq.RNG, up bool, v lorawan.MACVersion, conf uint32, dr, ch uint8, fk, sk lorawan.AES128Key, want lorawan.MIC) (lorawan.PHYPayload, bool) {
+	mts := []lorawan.MType{lorawan.UnconfirmedDataDown, lorawan.ConfirmedDataDown}
+	if up {
+		mts = []lorawan.MType{lorawan.UnconfirmedDataUp, lorawan.ConfirmedDataUp}
+	}
+	n := 23 + 16*r.Intn(3) // 16 (B0) + 1 + 7 + 1 + n is a multiple of 16
+	p := framefmt.DataFrame(r, framefmt.Opt{MType: mts[r.Intn(2)], Port: 1 + r.Intn(255), FRMLen: n, FCntHigh: r.Intn(10) < 7})
+	m := p.MACPayload.(*lorawan.MACPayload)
+	pay := m.FRMPayload[0].(*lorawan.DataPayload)
+	b, err := p.MarshalBinary()
+	if err != nil || len(b) != 1+7+1+n+4 {
+		return p, false
+	}
+	msg := b[:len(b)-4]
+	hdr := func(first [5]byte, dir byte) []byte { // 0x49 | four bytes | dir | DevAddr | FCnt | 0 | len
+		x := make([]byte, 16)
+		copy(x, first[:])
+		x[5] = dir
+		for i := 0; i < 4; i++ {
+			x[6+i] = m.FHDR.DevAddr[3-i]
+		}
+		binary.LittleEndian.PutUint32(x[10:14], m.FHDR.FCnt)
+		x[15] = byte(len(msg))
+		return x
+	}
+	c16 := uint16(0)
+	if m.FHDR.FCtrl.ACK {
+		c16 = uint16(conf)
+	}
+	var tag [16]byte
+	copy(tag[:4], want[:])
+	copy(tag[4:], r.Bytes(12))
+	var last [16]byte
+	switch {
+	case !up:
+		first := [5]byte{0x49}
+		if v != lorawan.LoRaWAN1_0 {
+			first[1], first[2] = byte(c16), byte(c16>>8)
+		}
+		c := micforge.New(sk)
+		last = c.LastBlock(c.State(append(hdr(first, 1), msg[:len(msg)-16]...)), tag)
+	case v == lorawan.LoRaWAN1_0:
+		c := micforge.New(fk)
+		last = c.LastBlock(c.State(append(hdr([5]byte{0x49}, 0), msg[:len(msg)-16]...)), tag)
+	default:
+		cs, cf := micforge.New(sk), micforge.New(fk)
+		ss := cs.State(append(hdr([5]byte{0x49, byte(c16), byte(c16 >> 8), dr, ch}, 0), msg[:len(msg)-16]...))
+		sf := cf.State(append(hdr([5]byte{0x49}, 0), msg[:len(msg)-16]...))
+		found := false
+		var ts [16]byte
+		ts[0], ts[1] = want[0], want[1]
+		for i := 0; i < 4000000 && !found; i++ {
+			binary.LittleEndian.PutUint64(ts[2:10], r.U64())
+			binary.LittleEndian.PutUint32(ts[10:14], uint32(i))
+			last = cs.LastBlock(ss, ts)
+			t := cf.TagAligned(sf, last)
+			found = t[0] == want[2] && t[1] == want[3]
+		}
+		if !found {
+			return p, false
+		}
+	}
+	copy(pay.Bytes[n-16:], last[:])
+	return p, true
+}
+
+// forgedCases: frames whose correct MIC is 00000000, ffffffff, 00000001 and the MIC of the previous case, for every
+// direction x version; ordinary cases (Set must give that MIC, Validate of the frame carrying it must be true).
+func forgedCases(s *cases.Set, r *cq.RNG, rounds int) {
+	for round := 0; round < rounds; round++ {
+		for _, up := range []bool{true, false} {
+			for _, v := range []lorawan.MACVersion{lorawan.LoRaWAN1_0, lorawan.LoRaWAN1_1} {
+				for wi, want := range []lorawan.MIC{{}, {0xff, 0xff, 0xff, 0xff}, {0, 0, 0, 1}, lastMIC, {0, 0, 0xab, 0xcd}, {0x12, 0x34, 0, 0}} {
+					if wi == 3 {
+						want = lastMIC
+					}
+					conf, dr, ch, fk, sk := counter(r), r.Byte(), r.Byte(), key(r), key(r)
+					p, ok := forge(r, up, v, conf, dr, ch, fk, sk, want)
+					if !ok {
+						continue
+					}
+					forged++
+					var mic lorawan.MIC
+					var sok bool
+					kind := fmt.Sprintf("forged-mic-%s", []string{"00000000", "ffffffff", "00000001", "previous", "0000xxxx", "xxxx0000"}[wi])
+					if up {
+						mic, sok = upCaseM(s, r, p, v, conf, dr, ch, fk, sk, 0, kind, "forged", nil, false)
+					} else {
+						mic, sok = downCaseM(s, r, p, v, conf, sk, 0, kind, "forged", nil, false)
+					}
+					if sok && mic == want {
+						forgedHit++
+					}
+				}
+			}
+		}
+	}
+	s.Extra["forged_mic_frames"] = forged
+	s.Extra["forged_mic_frames_whose_set_mic_is_the_wanted_value"] = forgedHit
+}
 
 func clip(k string) string {
 	if len(k) > 300 {
@@ -309,7 +436,7 @@ func main() {
 	r := cq.NewRNG(seed)
 	nr = cq.NewRNG(seed ^ 0x9e3779b97f4a7c15)
 	s := cases.New("C02", dir, "LW.Corr.C02",
-		"RFC 4493 examples 1-4 and FIPS-197 C.1 first; then data frames (framefmt.DataFrame) whose MIC message length is cycled over 1..16 CMAC blocks (FRMPayload length chosen for it), FCnt with high bits in 70%, ConfFCnt with high bits in 70%, ACK alternating, both MAC versions, txDR/txCh cycled over all byte values, random/degenerate keys, carried MIC = valid / random / one bit flipped / first half changed / second half changed; validate also called with the other direction's function; malformed: nil MACPayload, wrong payload type, unencodable frame (16-byte FOpts, MAC command on port > 0). History: unrelated library calls (internal/noise) before every compared call; neighbour families run back to back (a base call whose frame carries its valid MIC, then the same call with exactly one input changed - single FCnt bits 16, 31, one more high and one low bit, FCnt + 2^16, ConfFCnt + 1 / + 2^16, txDR, txCh, each key zeroed, keys equal, keys swapped, other version - the frame still carrying the base MIC, then the base call again), each an ordinary case compared with model and specification; every compared call is repeated three times later in the process (reverse, same, shuffled order) and must give its first result. Cases are distinct by construction (random keys) except the repeated base calls.")
+		"RFC 4493 examples 1-4 and FIPS-197 C.1 first; then data frames (framefmt.DataFrame) whose MIC message length is cycled over 1..16 CMAC blocks (FRMPayload length chosen for it), FCnt with high bits in 70%, ConfFCnt with high bits in 70%, ACK alternating, both MAC versions, txDR/txCh cycled over all byte values, random/degenerate keys, carried MIC = valid / random / one bit flipped / first half changed / second half changed; validate also called with the other direction's function; malformed: nil MACPayload, wrong payload type, unencodable frame (16-byte FOpts, MAC command on port > 0). Special MIC values: frames CONSTRUCTED (internal/micforge: CMAC inverted in its last block, which lies inside the FRMPayload; 1.1 uplink by a 2^16 search for the second half) so that their correct MIC is 00000000, ffffffff, 00000001, the MIC of the previous case, 0000xxxx, xxxx0000 - for uplink/downlink x 1.0/1.1; Set must give that MIC and Validate of the frame carrying it must be true. History: unrelated library calls (internal/noise) before every compared call; neighbour families run back to back (a base call whose frame carries its valid MIC, then the same call with exactly one input changed - single FCnt bits 16, 31, one more high and one low bit, FCnt + 2^16, ConfFCnt + 1 / + 2^16, txDR, txCh, each key zeroed, keys equal, keys swapped, other version - the frame still carrying the base MIC, then the base call again), each an ordinary case compared with model and specification; every compared call is repeated three times later in the process (reverse, same, shuffled order) and must give its first result. Cases are distinct by construction (random keys) except the repeated base calls.")
 	s.ShardSize = 60
 	n := 600
 	if thorough {
@@ -337,6 +464,14 @@ func main() {
 		aesCase(s, r.Bytes(16), r.Bytes(16), "random")
 	}
 
+	s.Watchdog(3 * time.Second)
+	{
+		rounds := 2
+		if thorough {
+			rounds = 25
+		}
+		forgedCases(s, r, rounds)
+	}
 	vers := []lorawan.MACVersion{lorawan.LoRaWAN1_0, lorawan.LoRaWAN1_1}
 	for i := 0; i < n; i++ {
 		o := framefmt.ValidDataOpt(r)
